@@ -146,7 +146,9 @@ def _run(case):
             def flags(f):
                 ver = 0
                 if getattr(f, "request", None) is not None: ver = int(f.request.headers.get("x-edit", "0"))
-                return [1 if getattr(f, "response", None) else 0, 1 if f.error else 0,
+                # a replay that fails after the response headers arrived leaves BOTH flow.response (partial) and flow.error;
+                # the model does not track partial responses: "has a response" is compared for flows without error only
+                return [1 if (getattr(f, "response", None) and not f.error) else 0, 1 if f.error else 0,
                         1 if getattr(f, "is_replay", None) else 0, 1 if f._backup else 0, ver]
             # observe the queue itself: what is put, what the playback loop takes, what stop removes
             q = cp.queue
@@ -219,8 +221,30 @@ def _run(case):
                     elif k == "respond":
                         live = [c for c in srv.conns if c["k"] is not None and not c["closed"] and not c.get("answered")]
                         if live:
-                            live[0]["answered"] = True
-                            live[0]["r"].feed_data(b"HTTP/1.1 200 OK\r\nContent-Length: 2\r\n\r\nok"); loop.pump()
+                            c = live[0]; c["answered"] = True
+                            spec = step[1] if len(step) > 1 and isinstance(step[1], dict) else {}
+                            # the origin's answer: interim 1xx responses, then the final one; one segment or several
+                            pieces = []
+                            for code in spec.get("interim", []):
+                                reason = {100: "Continue", 102: "Processing", 103: "Early Hints"}.get(code, "Interim")
+                                pieces.append(f"HTTP/1.1 {code} {reason}\r\nLink: </style.css>; rel=preload\r\n\r\n".encode())
+                            close = bool(spec.get("close")) or spec.get("body") == "eof"
+                            head = b"HTTP/1.1 200 OK\r\n" + (b"Connection: close\r\n" if spec.get("close") else b"")
+                            body = spec.get("body", "cl")
+                            if body == "cl": final = head + b"Content-Length: 2\r\n\r\nok"
+                            elif body == "chunked": final = head + b"Transfer-Encoding: chunked\r\n\r\n2\r\nok\r\n0\r\n\r\n"
+                            elif body == "none": final = b"HTTP/1.1 204 No Content\r\n" + (b"Connection: close\r\n" if spec.get("close") else b"") + b"\r\n"
+                            else: final = head + b"\r\nok"                     # delimited by the close of the connection
+                            if spec.get("cut"):                                  # the origin dies in the middle of its answer
+                                final = final[:max(1, len(final) - 3)]; close = True
+                            pieces.append(final)
+                            if spec.get("split"):
+                                for pc in pieces:
+                                    if not c["closed"]: c["r"].feed_data(pc); loop.pump()
+                            else:
+                                c["r"].feed_data(b"".join(pieces)); loop.pump()
+                            if close and not c["closed"]:
+                                c["r"].feed_eof(); loop.pump()
                     elif k == "srv_eof":
                         live = [c for c in srv.conns if not c["closed"] and not c.get("answered")]
                         if live:
